@@ -144,6 +144,8 @@ class Ctx:
         """max|a-b| <= tol*scale, finite; records the observed maximum residual per clause."""
         import numpy as np
         clause = clause + self.suffix
+        if a is None or b is None:
+            raise Violation(clause, 'None where an array / number was expected')
         a = np.asarray(_to_np(a))
         b = np.asarray(_to_np(b))
         if a.shape != b.shape:
